@@ -7009,7 +7009,13 @@ class Device(utils.CompositeEventEmitter):
     @with_connection_from_handle
     def on_gatt_pdu(self, connection: Connection, pdu: bytes):
         # Parse the L2CAP payload into an ATT PDU object
-        att_pdu = att.ATT_PDU.from_bytes(pdu)
+        try:
+            att_pdu = att.ATT_PDU.from_bytes(pdu)
+        except Exception as error:
+            logger.warning('malformed ATT PDU [%s]: %s', pdu.hex(), error)
+            if connection.gatt_server is not None:
+                connection.gatt_server.on_malformed_gatt_pdu(connection, pdu)
+            return
 
         # Conveniently, even-numbered op codes are client->server and
         # odd-numbered ones are server->client
